@@ -124,6 +124,7 @@ int main(void) {
         else if (!strcmp(f, "bitidx")) { /* bitidx <op:free|used|isfree> <nSect> <pages> : which (page, word, mask) is touched */
             unsigned pages = (unsigned)v[3]; struct AdfVolume vol; memset(&vol, 0, sizeof vol);
             vol.bitmapSize = pages; vol.bitmapTable = calloc(pages, sizeof(void *)); vol.bitmapBlocksChg = calloc(pages, sizeof(BOOL));
+            vol.firstBlock = 0; vol.lastBlock = (SECTNUM)(pages * 127 * 32 + 1);   /* the volume these pages describe */
             for (unsigned i = 0; i < pages; i++) { vol.bitmapTable[i] = malloc(512); memset(vol.bitmapTable[i], !strcmp(a[1], "free") ? 0 : 0xff, 512); }
             long hitp = -1, hitw = -1; uint32_t hitm = 0; int res = -1;
             if (!strcmp(a[1], "free")) adfSetBlockFree(&vol, (SECTNUM)v[2]);
